@@ -199,7 +199,8 @@ def main():
            "co_firstlineno": "l", "co_linetable": "lt", "co_qualname": "q", "co_exceptiontable": "e"}
     o = {"host": [3, 12], "cls": "Code311", "native": nat, "portable": dict(nat), "back": dict(nat), "back_ok": 1, "back_err": "", "replaced": dict(nat, co_name="new"),
          "orig_after": dict(nat), "newname": "new", "same_object": 0,
-         "rback_ok": 1, "rback": dict(nat, co_name="new"), "back2_ok": 1, "back2": dict(nat)}
+         "rback_ok": 1, "rback": dict(nat, co_name="new"), "back2_ok": 1, "back2": dict(nat),
+         "edit_before": dict(nat), "edit_after": dict(nat)}
     ok &= run_probe("field", "CodeConv", o, lambda r: r["back"].__setitem__("co_linetable", "other"), lambda r: r["portable"].pop("co_exceptiontable"))
     ok &= run_probe("stale result", "CodeConv", o, lambda r: r["rback"].__setitem__("co_name", "nmx"), lambda r: r["back2"].__setitem__("co_code", "other"))
     # S10
